@@ -149,7 +149,9 @@ _STR_ALPHABET_ANY = st.one_of(
 def str_text(ascii_only=True):
     plain = st.text(alphabet=_STR_ALPHABET_ASCII if ascii_only else _STR_ALPHABET_ANY, max_size=8)
     # characters that mean something outside a string: comment sign, brackets, keywords, indentation
-    special = st.sampled_from(["#", "a#b", "# no comment", "x # y", "    ", "{p}", "for", "1,2", "p0", "name x", "a | 0", "="])
+    special = st.sampled_from(["#", "a#b", "# no comment", "x # y", "    ", "{p}", "for", "1,2", "p0", "name x", "a | 0", "=",
+                                # strings whose content reads like another kind of literal
+                                "True", "False", "1", "1.5", "2j", "1e3", "pi", "None", "q0", "[1, 2]", "-1", "0x1F", "nan", "inf"])
     return st.one_of(plain, plain, plain, plain, plain, plain, special)
 
 
